@@ -167,12 +167,16 @@ func (p *parser) parseMessageText() (dataItem ast.ItemNode, ok bool) {
 
 	switch formatCode {
 	case formatCodeList:
-		values := make([]interface{}, length)
+		// Grow the buffer as elements are actually decoded: the declared count
+		// is only bounded by the bytes remaining, and nested lists can each
+		// declare that much.
+		values := []interface{}{}
 		for i := 0; i < length; i++ {
-			values[i], ok = p.parseMessageText()
+			value, ok := p.parseMessageText()
 			if !ok {
 				return ast.NewEmptyItemNode(), false
 			}
+			values = append(values, value)
 		}
 		return ast.NewListNode(values...), true
 
